@@ -4,6 +4,7 @@ package node
 
 import (
 	"github.com/holiman/uint256"
+	"github.com/rigochain/rigo-go/ctrlers/gov/proposal"
 	ctrlertypes "github.com/rigochain/rigo-go/ctrlers/types"
 	"github.com/rigochain/rigo-go/types/crypto"
 	"github.com/rigochain/rigo-go/zzverif"
@@ -207,4 +208,52 @@ func ZZ_C09_P3() {
 		zzverif.Assert(true, "P3 no panic")
 		zzverif.Reach("P3 end")
 	}
+}
+
+// zzHostileDocs: governance-parameter option documents given as literal JSON
+// text (what a client can put into a proposal): well-formed, oversized in
+// decimal and in hexadecimal, negative, wrongly typed, truncated.
+var zzHostileDocs = []string{
+	`{"slashRatio":"60"}`,
+	`{"gasPrice":"115792089237316195423570985008687907853269984665640564039457584007913129639936"}`,
+	`{"gasPrice":"0x10000000000000000000000000000000000000000000000000000000000000000"}`,
+	`{"minValidatorStake":"0xffffffffffffffffffffffffffffffffffffffffffffffffffffffffffffffff"}`,
+	`{"minValidatorStake":"-1"}`,
+	`{"rewardPerPower":"0x-5"}`,
+	`{"rewardPerPower":12}`,
+	`{"maxValidatorCnt":"99999999999999999999999999"}`,
+	`{"gasPrice":"1e400"}`,
+	`{"gasPrice":`,
+	`[]`,
+	`null`,
+	`{"version":"-9223372036854775809"}`,
+}
+
+// ZZ_C09_P5: a proposal whose option is one of the literal documents above,
+// sent by a validator with otherwise valid fields, to the mempool check and in
+// a block.  Literal JSON text is outside the executor's codec model (A-CODEC:
+// it cannot decode it and predicts a rejection), so this harness is decided by
+// the native replay of every explored path (registered with validate >= the
+// number of paths): a panic of the real decoder shows up as a native
+// divergence.
+func ZZ_C09_P5() {
+	govp := ctrlertypes.Test1GovParams()
+	n := zzNewGenesisBanded(3, 1, govp).start()
+	n.emptyBlock(0)
+	n.emptyBlock(0)
+	doc := zzverif.Choose("option.document", len(zzHostileDocs))
+	start := n.height + 2
+	pl := &ctrlertypes.TrxPayloadProposal{Message: "m", StartVotingHeight: start, VotingPeriodBlocks: govp.MinVotingPeriodBlocks(),
+		ApplyingHeight: start + govp.MinVotingPeriodBlocks() + govp.LazyApplyingBlocks(), OptType: proposal.PROPOSAL_GOVPARAMS, Options: [][]byte{[]byte(zzHostileDocs[doc])}}
+	t := &zzTx{from: 0, to: -1, typ: ctrlertypes.TRX_PROPOSAL, amount: uint256.NewInt(0), gas: govp.MinTrxGas(), gasPrice: govp.GasPrice(), nonce: n.nonce(0), payload: pl, signer: 0}
+	raw := n.encode(t)
+	ok := zzNoPanic("CheckTx", func() { n.app.CheckTx(abcitypes.RequestCheckTx{Tx: raw, Type: abcitypes.CheckTxType_New}) })
+	n.begin(0, nil, nil)
+	if ok {
+		ok = zzNoPanic("DeliverTx", func() { n.app.DeliverTx(abcitypes.RequestDeliverTx{Tx: raw}) })
+	}
+	if ok && zzNoPanic("EndBlock/Commit", func() { n.end() }) {
+		zzverif.Reach("P5 end")
+	}
+	zzverif.Event("P5", doc)
 }
